@@ -25,6 +25,18 @@ CHECKS = {
          "Exploration. All 62 generated math.* entries plus 86 synthetic Go functions (every numeric parameter kind, named numeric types, interface{}, slices, variadic, multi-result, trailing error, panicking) are called through ECALFunctionAdapter.Run, and a sample through ECAL source, with every argument vector of length 0-2 (quick) / 0-3, 4 for wide signatures (thorough) over a 22-value universe plus integer-kind boundary values; rapid adds vectors to length 6 with arbitrary floats/strings. Oracle: no panic escapes; result XOR descriptive error; a returned result equals calling the Go function directly with arguments converted by the harness's own table (numbers back as float64, trailing Go error as the error); exact-arity kind-matching in-range numeric calls must succeed.",
          "Fractional / out-of-range numbers for integer parameters, variadic and non-scalar signatures are only required to give a faithful result or an error (the statement allows a descriptive error). The real plugin loader cannot be reached from outside the package; its wrapper shape is covered by synthetic functions.",
          "DESIGN.md 4/C19"),
+ "C05": ("rapid-generated scoping/closure/container/object programs compared with a store-passing reference interpreter under all undocumented-choice variants",
+         "Exploration. Programs over a bounded name set mix global/block/function scopes, let, shadowing by let and by parameters, recursion, parameter defaults with fewer arguments, closures that outlive their defining call, list/map literals with number and string keys, writes through dot/bracket/nested paths, aliases and parameters, len/add/del/concat, and templates with single/multiple inheritance, init and super constructors. Observations (t.rec) and visibility probes (value | null-or-error) must equal the reference interpreter's prediction; the reference runs under all 32 variants of the scoping choices the documentation leaves open and a program is only judged if they agree.",
+         "Relative to internal/lang. Use of a list/map after add/del returned its successor, extra call arguments, reads of missing keys, the key kind seen when iterating a number key created by assignment, and conflicts between two super templates are unspecified and discarded (counted).",
+         "DESIGN.md 4/C05"),
+ "C18": ("exhaustive piece-sequence enumeration + rapid-generated sources with known byte offsets + native fuzzing; positions recomputed from offsets, planted errors, comment-blanking metamorphic relation",
+         "Exploration. Sources are assembled from pieces with known byte offsets (identifiers, numbers, every symbol/keyword, quoted and raw multi-line strings, # and /* */ comments, CR/LF/CRLF/tab, multi-byte runes): all sequences over a 14-piece alphabet to length 4 (quick) / 5 (thorough) plus random soups and valid programs with fillers in every gap. Every token's Pos/line/column is recomputed from the offsets; stray tokens, lexical errors and ill-typed operands are planted at known places and the reported error position checked; replacing comments by blanks of equal shape must not change the tree (including token positions). Thorough adds FuzzLexPositions on arbitrary bytes.",
+         "Breakpoints are covered through the token lines the tree carries (the debugger reads node.Token.Lline), not through a live debugger. One open known finding (C18-line-comment-column) is excluded by construction: generated sources put an extra newline after # comments; enumerated/fuzz cases with that shape are skipped and counted.",
+         "DESIGN.md 4/C18"),
+ "C20": ("exhaustive sweep over interpreter-binary lengths x filler classes x project trees + rapid random cases through Pack and RunPackedBinary",
+         "Exploration. 'Interpreter binaries' of every length over one (quick) / two (thorough) full periods of the scanner geometry (4096-byte blocks + 28-byte look-ahead), with '#'-free, '#'-per-block, dense-'#' fillers and 30 marker fragments planted at every gap 0..32 before the true marker around each read boundary, are packed with 6 project trees (flat, nested, empty file, all 256 byte values, names with spaces, large). RunPackedBinary (through the verif IO hook) must call exit with the entry's result, the recovered file map (pack.files hook) must equal the tree byte for byte, and the archive is re-opened independently at len(binary)+len(marker). A sample of every enumeration goes through the real Pack (byte-identical to the assembled target).",
+         "Precondition: the filler never contains the complete marker (a real interpreter binary does not: the marker is assembled at run time). Most sweep cases assemble binary+marker+reference archive instead of calling Pack (checked byte-identical on the sampled Pack cases).",
+         "DESIGN.md 4/C20"),
  "C17": ("exhaustive enumeration + rapid random generation of (root, path) pairs against a sentinel-file oracle",
          "Exploration. Every (root form x path) pair over a 7-segment alphabet up to length 4 (quick) / 6 (thorough) is enumerated completely against a directory tree in which every reachable location, inside and outside the root, holds a sentinel naming its own canonical path; random longer paths with hostile segments are added by rapid, both through Resolve and through ECAL import statements. A returned content that names a location outside the lexical root is a violation. Exhaustive within the bound, sampled beyond; no absence proof for longer paths.",
          "Trusts the harness's 10-line stack normaliser for the root only (the content oracle is independent of any normaliser); symlinks are out of scope (the statement says lexically inside).",
